@@ -123,64 +123,70 @@ Ltac break_step :=
          | |- context [match stack ?s with _ => _ end] => destruct (stack s) eqn:?
          end.
 
+Ltac break_if :=
+  repeat match goal with
+         | |- context [if ?c then _ else _] => destruct c eqn:?
+         | |- context [match lookup_key ?k ?t with _ => _ end] => destruct (lookup_key k t) eqn:?
+         end.
+
+Definition grows (s s' : st) : Prop :=
+  (exists T, syms s' = syms s ++ T) /\ (exists X, exts s' = exts s ++ X) /\ (exists E, errs s' = errs s ++ E).
+
+Lemma grows_refl s : grows s s.
+Proof. repeat split; exists []; rewrite app_nil_r; reflexivity. Qed.
+
+Lemma grows_trans a b c : grows a b -> grows b c -> grows a c.
+Proof.
+  intros ((T1 & A1) & (X1 & B1) & (E1 & C1)) ((T2 & A2) & (X2 & B2) & (E2 & C2)).
+  repeat split; eexists.
+  - rewrite A2, A1, <- app_assoc. reflexivity.
+  - rewrite B2, B1, <- app_assoc. reflexivity.
+  - rewrite C2, C1, <- app_assoc. reflexivity.
+Qed.
+
+Ltac grows_base := repeat split; simpl; try (exists []; rewrite app_nil_r; reflexivity); try (eexists; reflexivity).
+
+Lemma grows_add_err s e : grows s (add_err s e). Proof. grows_base. Qed.
+Lemma grows_add_sym s e : grows s (add_sym s e). Proof. grows_base. Qed.
+Lemma grows_add_isl s i n : grows s (add_isl s i n). Proof. grows_base. Qed.
+Lemma grows_add_out s o : grows s (add_out s o). Proof. grows_base. Qed.
+Lemma grows_with_stack s k : grows s (with_stack s k). Proof. grows_base. Qed.
+Lemma grows_bump s : grows s (bump_local s).
+Proof. unfold bump_local. destruct (stack s); [apply grows_refl|grows_base]. Qed.
+Lemma grows_set_xall s : grows s (set_xall s).
+Proof. unfold set_xall. destruct (stack s); [apply grows_refl|grows_base]. Qed.
+Lemma grows_declare i s n : grows s (declare i s n).
+Proof. unfold declare. destruct (lookup_ext (lower n) (exts s)); grows_base. Qed.
+Lemma grows_fold_declare i ns : forall s, grows s (fold_left (declare i) ns s).
+Proof.
+  induction ns; simpl; intros s; [apply grows_refl|].
+  eapply grows_trans; [apply grows_declare|apply IHns].
+Qed.
+
+Ltac grows_tac :=
+  repeat first
+    [ apply grows_refl
+    | eapply grows_trans; [|apply grows_bump]
+    | eapply grows_trans; [|apply grows_set_xall]
+    | eapply grows_trans; [|apply grows_declare]
+    | eapply grows_trans; [|apply grows_fold_declare]
+    | eapply grows_trans; [|apply grows_add_err]
+    | eapply grows_trans; [|apply grows_add_sym]
+    | eapply grows_trans; [|apply grows_add_isl]
+    | eapply grows_trans; [|apply grows_add_out]
+    | eapply grows_trans; [|apply grows_with_stack] ].
+
+Lemma step_grows s e : grows s (step s e).
+Proof.
+  unfold step. destruct e; break_if; try grows_tac; grows_base.
+Qed.
+
 Lemma step_syms_app s e : exists T, syms (step s e) = syms s ++ T.
-Proof.
-  unfold step. destruct e; break_step; simpl;
-    repeat (rewrite ?syms_declare, ?syms_fold_declare; simpl);
-    try (exists []; rewrite app_nil_r; reflexivity); try (eexists; reflexivity).
-Qed.
-
+Proof. apply step_grows. Qed.
 Lemma step_errs_app s e : exists E, errs (step s e) = errs s ++ E.
-Proof.
-  assert (Z0 : forall l : list string, exists E, l = l ++ E) by (intros l; exists []; rewrite app_nil_r; reflexivity).
-  unfold step. destruct e; break_step; simpl; try apply Z0; try (eexists; reflexivity).
-  - (* label, exported, extern_all *)
-    destruct (errs_declare (f_int (topf s)) (add_sym s {| e_key := mkkey KInternal (f_int (topf s)) name;
-       e_orig := render KInternal (f_int (topf s)) name; e_val := addr |}) name) as [E1 H1].
-    match goal with |- context [declare ?i (add_isl ?s0 ?j ?n0) ?n1] =>
-      destruct (errs_declare i (add_isl s0 j n0) n1) as [E2 H2] end.
-    rewrite H2. simpl. rewrite H1. simpl. rewrite <- app_assoc. eexists; reflexivity.
-  - match goal with |- context [declare ?i ?s0 ?n1] => destruct (errs_declare i s0 n1) as [E2 H2] end.
-    rewrite H2. simpl. eexists; reflexivity.
-  - match goal with |- context [declare ?i ?s0 ?n1] => destruct (errs_declare i s0 n1) as [E2 H2] end.
-    rewrite H2. simpl. eexists; reflexivity.
-  - match goal with |- context [declare ?i (declare ?i2 ?s0 ?n0) ?n1] =>
-      destruct (errs_declare i (declare i2 s0 n0) n1) as [E2 H2]; destruct (errs_declare i2 s0 n0) as [E1 H1] end.
-    rewrite H2, H1. simpl. rewrite <- app_assoc. eexists; reflexivity.
-  - match goal with |- context [declare ?i ?s0 ?n1] => destruct (errs_declare i s0 n1) as [E2 H2] end.
-    rewrite H2. simpl. eexists; reflexivity.
-  - match goal with |- context [declare ?i ?s0 ?n1] => destruct (errs_declare i s0 n1) as [E2 H2] end.
-    rewrite H2. simpl. eexists; reflexivity.
-  - apply errs_fold_declare.
-  - match goal with |- context [fold_left (declare ?i) ?l ?s0] => destruct (errs_fold_declare i l s0) as [E H] end.
-    rewrite H. eexists; reflexivity.
-Qed.
-
-Lemma exts_app_trans (a : list (string * key)) x y : exists X, (a ++ x) ++ y = a ++ X.
-Proof. exists (x ++ y). rewrite app_assoc. reflexivity. Qed.
-
+Proof. apply step_grows. Qed.
 Lemma step_exts_app s e : exists X, exts (step s e) = exts s ++ X.
-Proof.
-  assert (Z0 : forall l : list (string * key), exists E, l = l ++ E) by (intros l; exists []; rewrite app_nil_r; reflexivity).
-  unfold step. destruct e; break_step; simpl; try apply Z0.
-  - match goal with |- context [declare ?i (add_isl (declare ?i2 ?s0 ?n0) ?j ?n2) ?n1] =>
-      destruct (exts_declare i (add_isl (declare i2 s0 n0) j n2) n1) as [E2 H2]; destruct (exts_declare i2 s0 n0) as [E1 H1] end.
-    rewrite H2. simpl. rewrite H1. simpl. apply exts_app_trans.
-  - match goal with |- context [declare ?i ?s0 ?n1] => destruct (exts_declare i s0 n1) as [E2 H2] end.
-    rewrite H2. simpl. eexists; reflexivity.
-  - match goal with |- context [declare ?i ?s0 ?n1] => destruct (exts_declare i s0 n1) as [E2 H2] end.
-    rewrite H2. simpl. eexists; reflexivity.
-  - match goal with |- context [declare ?i (declare ?i2 ?s0 ?n0) ?n1] =>
-      destruct (exts_declare i (declare i2 s0 n0) n1) as [E2 H2]; destruct (exts_declare i2 s0 n0) as [E1 H1] end.
-    rewrite H2, H1. simpl. apply exts_app_trans.
-  - match goal with |- context [declare ?i ?s0 ?n1] => destruct (exts_declare i s0 n1) as [E2 H2] end.
-    rewrite H2. simpl. eexists; reflexivity.
-  - match goal with |- context [declare ?i ?s0 ?n1] => destruct (exts_declare i s0 n1) as [E2 H2] end.
-    rewrite H2. simpl. eexists; reflexivity.
-  - apply exts_fold_declare.
-  - match goal with |- context [fold_left (declare ?i) ?l ?s0] => destruct (exts_fold_declare i l s0) as [E H] end.
-    rewrite H. eexists; reflexivity.
-Qed.
+Proof. apply step_grows. Qed.
 
 Lemma walk_from_app tr : forall s,
   (exists T, syms (fold_left step tr s) = syms s ++ T) /\
@@ -408,6 +414,54 @@ Ltac simp_declare :=
 
 Definition locs (s : st) : list N := map f_loc (stack s).
 
+Definition keeps (s s' : st) : Prop := locs s' = locs s /\ next_loc s' = next_loc s.
+
+Lemma keeps_refl s : keeps s s. Proof. split; reflexivity. Qed.
+Lemma keeps_trans a b c : keeps a b -> keeps b c -> keeps a c.
+Proof. intros [A B] [D E]. split; congruence. Qed.
+Lemma keeps_add_err s e : keeps s (add_err s e). Proof. split; reflexivity. Qed.
+Lemma keeps_add_sym s e : keeps s (add_sym s e). Proof. split; reflexivity. Qed.
+Lemma keeps_add_isl s i n : keeps s (add_isl s i n). Proof. split; reflexivity. Qed.
+Lemma keeps_add_out s o : keeps s (add_out s o). Proof. split; reflexivity. Qed.
+Lemma keeps_declare i s n : keeps s (declare i s n).
+Proof. unfold keeps, locs. destruct (stack_declare i s n) as (A & B & _). rewrite A, B. auto. Qed.
+Lemma keeps_fold_declare i ns s : keeps s (fold_left (declare i) ns s).
+Proof. unfold keeps, locs. destruct (stack_fold_declare i ns s) as (A & B & _). rewrite A, B. auto. Qed.
+Lemma keeps_set_xall s : keeps s (set_xall s).
+Proof. unfold set_xall, keeps, locs. destruct (stack s) eqn:E; simpl; rewrite ?E; auto. Qed.
+
+Ltac keeps_tac :=
+  repeat first
+    [ apply keeps_refl
+    | eapply keeps_trans; [|apply keeps_set_xall]
+    | eapply keeps_trans; [|apply keeps_declare]
+    | eapply keeps_trans; [|apply keeps_fold_declare]
+    | eapply keeps_trans; [|apply keeps_add_err]
+    | eapply keeps_trans; [|apply keeps_add_sym]
+    | eapply keeps_trans; [|apply keeps_add_isl]
+    | eapply keeps_trans; [|apply keeps_add_out] ].
+
+Lemma bump_locs s : stack s <> [] ->
+  locs (bump_local s) = next_loc s :: tl (locs s) /\ next_loc (bump_local s) = (next_loc s + 1)%N.
+Proof. unfold bump_local, locs. destruct (stack s); [congruence|]. simpl. auto. Qed.
+
+Lemma topf_file_nonempty s : f_isfile (topf s) = true -> stack s <> [].
+Proof. unfold topf. destruct (stack s); [discriminate|discriminate]. Qed.
+
+Lemma label_locs s n x v : f_isfile (topf s) = true ->
+  locs (step s (ELabel n x v)) = next_loc s :: tl (locs s) /\
+  next_loc (step s (ELabel n x v)) = (next_loc s + 1)%N.
+Proof.
+  intros F. unfold step. rewrite F. simpl negb. cbv iota.
+  match goal with |- context [bump_local ?x] => set (s1 := x) end.
+  assert (K : keeps s s1) by (unfold s1; break_if; keeps_tac).
+  destruct K as [K1 K2].
+  assert (NE : stack s1 <> []).
+  { pose proof (topf_file_nonempty s F) as NE. unfold locs in K1. intros Q. rewrite Q in K1. simpl in K1.
+    destruct (stack s); [congruence|discriminate]. }
+  destruct (bump_locs s1 NE) as [B1 B2]. rewrite B1, B2, K1, K2. auto.
+Qed.
+
 Lemma step_locs s e :
   (locs (step s e) = locs s /\ next_loc (step s e) = next_loc s) \/
   (locs (step s e) = next_loc s :: locs s /\ next_loc (step s e) = (next_loc s + 1)%N) \/
@@ -415,10 +469,21 @@ Lemma step_locs s e :
   (locs (step s e) = next_loc s :: tl (locs s) /\ next_loc (step s e) = (next_loc s + 1)%N /\
    f_isfile (topf s) = true /\ exists n x v, e = ELabel n x v).
 Proof.
-  unfold locs, step. destruct e; break_step; unfold bump_local, set_xall, topf; simp_declare;
-    try (destruct (stack s) eqn:?; simp_declare); rewrite ?map_tl; auto;
-    try (right; right; right; repeat split; auto;
-         [match goal with H : negb _ = false |- _ => apply negb_false_iff in H; exact H end | eauto]).
+  destruct e.
+  - right; left. unfold step, locs. simpl. auto.
+  - right; right; left. unfold step, locs. simpl. rewrite map_tl. auto.
+  - right; left. unfold step, locs. simpl. auto.
+  - right; right; left. unfold step, locs. simpl. rewrite map_tl. auto.
+  - unfold step. destruct (negb (f_isfile (topf s))) eqn:F.
+    + left. apply keeps_add_err.
+    + right; right; right. apply negb_false_iff in F.
+      destruct (label_locs s name ext addr F) as [A B]. unfold step in A, B. rewrite F in A, B. simpl negb in A, B.
+      cbv iota in A, B. rewrite A, B. repeat split; eauto.
+  - left. unfold step. break_if; keeps_tac.
+  - left. unfold step. break_if; keeps_tac.
+  - left. unfold step. break_if; keeps_tac.
+  - left. unfold step. keeps_tac.
+  - left. unfold step. keeps_tac.
 Qed.
 
 Definition inv (s : st) : Prop :=
@@ -502,15 +567,232 @@ Lemma label_ends_scope s n x v :
   inv s -> f_isfile (topf s) = true -> dead (f_loc (topf s)) (step s (ELabel n x v)).
 Proof.
   intros [ND FA] F. pose proof (topf_in_locs s F) as I.
-  destruct (step_locs s (ELabel n x v)) as [[A B]|[[A B]|[[A B]|(A & B & _)]]].
-  - exfalso. revert A. unfold locs, step. rewrite F. simpl.
-    destruct (lookup_key (mkkey KInternal (f_int (topf s)) n) (syms s)); unfold bump_local; break_step; simp_declare;
-      rewrite map_tl; intros A; fold (locs s) in A;
-      (assert (X : In (next_loc s) (locs s)) by (rewrite <- A; left; reflexivity));
-      rewrite Forall_forall in FA; specialize (FA _ X); lia.
-  - exfalso. destruct B as [B [[Q|Q]|Q]]; discriminate.
-  - exfalso. destruct B as [B [Q|Q]]; discriminate.
-  - unfold dead. rewrite A, B. rewrite Forall_forall in FA. pose proof (FA _ I). split; [lia|].
-    intros [Q|Q]; [lia|]. unfold topf, locs in *. destruct (stack s); simpl in *; [discriminate|].
-    inversion ND; subst. contradiction.
+  destruct (label_locs s n x v F) as [A B].
+  unfold dead. rewrite A, B. rewrite Forall_forall in FA. pose proof (FA _ I). split; [lia|].
+  intros [Q|Q]; [lia|]. unfold topf, locs in *. destruct (stack s); simpl in *; [discriminate|].
+  inversion ND; subst. contradiction.
 Qed.
+
+Lemma end_ends_scope s e : e = EEndBlock \/ e = EEndFile ->
+  inv s -> stack s <> [] -> dead (f_loc (topf s)) (step s e).
+Proof.
+  intros E [ND FA] NE. unfold dead.
+  assert (X : locs (step s e) = tl (locs s) /\ next_loc (step s e) = next_loc s).
+  { destruct E; subst e; unfold step, locs; simpl; rewrite map_tl; auto. }
+  destruct X as [A B]. rewrite A, B. unfold topf, locs in *.
+  destruct (stack s); [congruence|]. simpl in *. inversion ND; subst. inversion FA; subst. auto.
+Qed.
+
+(* every file instance -- linked or included -- and every block get the next counter values *)
+Lemma file_prefix_lemma s :
+  let s' := step s EFile in
+  f_int (topf s') = next_int s /\ f_loc (topf s') = next_loc s /\ f_isfile (topf s') = true /\ f_xall (topf s') = false /\
+  next_int s' = (next_int s + 1)%N /\ next_loc s' = (next_loc s + 1)%N.
+Proof. simpl. unfold topf. simpl. repeat split; reflexivity. Qed.
+
+Lemma block_prefix_lemma s :
+  let s' := step s EBlock in
+  f_int (topf s') = f_int (topf s) /\ f_loc (topf s') = next_loc s /\ f_isfile (topf s') = false /\
+  next_loc s' = (next_loc s + 1)%N.
+Proof. simpl. unfold topf. simpl. repeat split; reflexivity. Qed.
+
+(* ------------------------------------------------------------------ duplicates *)
+Lemma dup_assign_lemma s n x v w :
+  f_isfile (topf s) = true -> lookup_key (mkkey KInternal (f_int (topf s)) n) (syms s) = Some w ->
+  step s (EAssign n x v) = add_err s E_DUP.
+Proof. intros F H. unfold step. rewrite F, H. reflexivity. Qed.
+
+Lemma dup_label_lemma s n x v w :
+  f_isfile (topf s) = true -> lookup_key (mkkey KInternal (f_int (topf s)) n) (syms s) = Some w ->
+  step s (ELabel n x v) = bump_local (add_err s E_DUP).
+Proof. intros F H. unfold step. rewrite F, H. reflexivity. Qed.
+
+Lemma dup_local_lemma s n v w :
+  f_isfile (topf s) = true -> lookup_key (mkkey KLocal (f_loc (topf s)) n) (syms s) = Some w ->
+  step s (ELocal n v) = add_err s E_DUP.
+Proof. intros F H. unfold step. rewrite F, H. reflexivity. Qed.
+
+Lemma dup_export_lemma i s n k :
+  lookup_ext (lower n) (exts s) = Some k -> declare i s n = add_err s E_DUP.
+Proof. intros H. unfold declare. rewrite H. reflexivity. Qed.
+
+Lemma in_repeat_lemma s e :
+  f_isfile (topf s) = false ->
+  (exists n x v, e = ELabel n x v \/ e = EAssign n x v) \/ (exists n v, e = ELocal n v) ->
+  step s e = add_err s E_UNEXPECTED.
+Proof.
+  intros F [(n & x & v & [E|E])|(n & v & E)]; subst e; unfold step; rewrite F; reflexivity.
+Qed.
+
+Lemma lookup_key_app_new T en : lookup_key (e_key en) T = None -> lookup_key (e_key en) (T ++ [en]) = Some (e_val en).
+Proof.
+  unfold lookup_key. intros H. induction T as [|a r IH]; simpl in *.
+  - assert (X : key_eqb (e_key en) (e_key en) = true) by (apply key_eqb_eq; reflexivity). rewrite X. reflexivity.
+  - destruct (key_eqb (e_key a) (e_key en)); [discriminate|auto].
+Qed.
+
+Lemma topf_declare i s n : topf (declare i s n) = topf s.
+Proof. unfold topf. rewrite (proj1 (stack_declare i s n)). reflexivity. Qed.
+
+(* after a definition of [a] is met at file level, the key of [a] is bound and the top frame is the same *)
+Lemma assign_binds s a x v :
+  f_isfile (topf s) = true ->
+  let s' := step s (EAssign a x v) in
+  topf s' = topf s /\ exists w, lookup_key (mkkey KInternal (f_int (topf s)) a) (syms s') = Some w.
+Proof.
+  intros F. simpl. unfold step. rewrite F. simpl negb. cbv iota.
+  destruct (lookup_key (mkkey KInternal (f_int (topf s)) a) (syms s)) eqn:E.
+  - split; [reflexivity|]. simpl. eauto.
+  - split.
+    + break_if; rewrite ?topf_declare; reflexivity.
+    + exists v. break_if; rewrite ?syms_declare; simpl; rewrite ?syms_declare; simpl;
+        apply (lookup_key_app_new (syms s) {| e_key := mkkey KInternal (f_int (topf s)) a;
+                 e_orig := render KInternal (f_int (topf s)) a; e_val := v |}); exact E.
+Qed.
+
+(* names differing only in case are one symbol: a second definition under another spelling is a duplicate *)
+Lemma case_dup_lemma s a b x y v w :
+  f_isfile (topf s) = true -> lower a = lower b ->
+  In E_DUP (errs (step (step s (EAssign a x v)) (EAssign b y w))).
+Proof.
+  intros F L. destruct (assign_binds s a x v F) as [T [u U]].
+  assert (K : mkkey KInternal (f_int (topf s)) a = mkkey KInternal (f_int (topf s)) b) by (unfold mkkey; rewrite L; reflexivity).
+  rewrite (dup_assign_lemma (step s (EAssign a x v)) b y w u).
+  - simpl. apply in_or_app. right. left. reflexivity.
+  - rewrite T. exact F.
+  - rewrite T, <- K. exact U.
+Qed.
+
+(* ... and a use under any spelling is the same use *)
+Lemma case_ref_lemma s a b : lower a = lower b -> step s (ERef a) = step s (ERef b).
+Proof. intros L. unfold step, mkkey. rewrite L. reflexivity. Qed.
+
+(* errors fail the build *)
+Lemma errors_fail_lemma tr e :
+  e = E_UNEXPECTED \/ e = E_DUP \/ e = E_UNDEFINED ->
+  In e (errs (walk tr)) -> exists es, fst (model_trace tr) = OutFail es /\ In e es.
+Proof.
+  intros K I. unfold model_trace. simpl.
+  set (es := errs (walk tr) ++ _).
+  assert (H : has e es = true).
+  { unfold has. apply existsb_exists. exists e. split; [|apply String.eqb_refl]. unfold es. apply in_or_app. auto. }
+  destruct K as [ -> | [ -> | -> ] ]; rewrite H.
+  - eexists. split; [reflexivity|]. left. reflexivity.
+  - destruct (has E_UNEXPECTED es); eexists; (split; [reflexivity|]); simpl; auto.
+  - destruct (has E_UNEXPECTED es), (has E_DUP es); eexists; (split; [reflexivity|]); simpl; auto.
+Qed.
+
+Lemma errs_walk_mono tr : forall s e, In e (errs s) -> In e (errs (fold_left step tr s)).
+Proof.
+  intros s e I. destruct (walk_from_app tr s) as (_ & _ & (E & H)). rewrite H. apply in_or_app. auto.
+Qed.
+
+(* ------------------------------------------------------------------ export and definition commute *)
+Lemma declare_add_sym i s en n : declare i (add_sym s en) n = add_sym (declare i s n) en.
+Proof. unfold declare. simpl. destruct (lookup_ext (lower n) (exts s)); reflexivity. Qed.
+
+Lemma declare_add_isl i s j m n : declare i (add_isl s j m) n = add_isl (declare i s n) j m.
+Proof. unfold declare. simpl. destruct (lookup_ext (lower n) (exts s)); reflexivity. Qed.
+
+Lemma fold_declare_add_sym i ns : forall s en, fold_left (declare i) ns (add_sym s en) = add_sym (fold_left (declare i) ns s) en.
+Proof. induction ns; simpl; intros; auto. rewrite declare_add_sym. apply IHns. Qed.
+
+Lemma fold_declare_add_isl i ns : forall s j m, fold_left (declare i) ns (add_isl s j m) = add_isl (fold_left (declare i) ns s) j m.
+Proof. induction ns; simpl; intros; auto. rewrite declare_add_isl. apply IHns. Qed.
+
+Lemma set_xall_declare i s n : set_xall (declare i s n) = declare i (set_xall s) n.
+Proof.
+  unfold set_xall. rewrite (proj1 (stack_declare i s n)). destruct (stack s); auto.
+  unfold declare. simpl. destruct (lookup_ext (lower n) (exts s)); reflexivity.
+Qed.
+
+Lemma set_xall_add_sym s en : set_xall (add_sym s en) = add_sym (set_xall s) en.
+Proof. unfold set_xall. simpl. destruct (stack s); reflexivity. Qed.
+
+Lemma set_xall_add_isl s j m : set_xall (add_isl s j m) = add_isl (set_xall s) j m.
+Proof. unfold set_xall. simpl. destruct (stack s); reflexivity. Qed.
+
+Lemma topf_fold_declare i ns s : topf (fold_left (declare i) ns s) = topf s.
+Proof. unfold topf. rewrite (proj1 (stack_fold_declare i ns s)). reflexivity. Qed.
+
+(* 'name = v' then '.extern name'  ==  '.extern name' then 'name = v'  (any spelling of the name) *)
+Lemma extern_assign_commute s n m v :
+  f_isfile (topf s) = true -> f_xall (topf s) = false -> lower m = lower n ->
+  lookup_key (mkkey KInternal (f_int (topf s)) n) (syms s) = None ->
+  step (step s (EAssign n false v)) (EExtern [m]) = step (step s (EExtern [m])) (EAssign n false v).
+Proof.
+  intros F X L U.
+  assert (A : step s (EAssign n false v) =
+              add_sym (add_isl s (f_int (topf s)) n)
+                {| e_key := mkkey KInternal (f_int (topf s)) n; e_orig := render KInternal (f_int (topf s)) n; e_val := v |}).
+  { unfold step. rewrite F, U, X. reflexivity. }
+  rewrite A.
+  assert (B : step s (EExtern [m]) = declare (f_int (topf s)) s m) by reflexivity.
+  rewrite B.
+  assert (L1 : step (add_sym (add_isl s (f_int (topf s)) n)
+                {| e_key := mkkey KInternal (f_int (topf s)) n; e_orig := render KInternal (f_int (topf s)) n; e_val := v |})
+                (EExtern [m]) =
+               declare (f_int (topf s)) (add_sym (add_isl s (f_int (topf s)) n)
+                {| e_key := mkkey KInternal (f_int (topf s)) n; e_orig := render KInternal (f_int (topf s)) n; e_val := v |}) m)
+    by reflexivity.
+  rewrite L1.
+  assert (R1 : step (declare (f_int (topf s)) s m) (EAssign n false v) =
+               add_sym (add_isl (declare (f_int (topf s)) s m) (f_int (topf s)) n)
+                {| e_key := mkkey KInternal (f_int (topf s)) n; e_orig := render KInternal (f_int (topf s)) n; e_val := v |}).
+  { unfold step. rewrite topf_declare, F, X, syms_declare. simpl negb. cbv iota.
+    destruct (lookup_key (mkkey KInternal (f_int (topf s)) n) (syms s)) eqn:Q; [congruence|reflexivity]. }
+  rewrite R1, declare_add_sym, declare_add_isl. reflexivity.
+Qed.
+
+(* 'name = v' then '.extern all'  ==  '.extern all' then 'name = v' *)
+Lemma externall_assign_commute s n v :
+  f_isfile (topf s) = true -> f_xall (topf s) = false ->
+  lookup_key (mkkey KInternal (f_int (topf s)) n) (syms s) = None ->
+  step (step s (EAssign n false v)) EExternAll = step (step s EExternAll) (EAssign n false v).
+Proof.
+  intros F X U.
+  set (i := f_int (topf s)).
+  set (en := {| e_key := mkkey KInternal i n; e_orig := render KInternal i n; e_val := v |}).
+  set (mine := map snd (filter (fun p => N.eqb (fst p) i) (isl s))).
+  assert (A : step s (EAssign n false v) = add_sym (add_isl s i n) en).
+  { unfold step. fold i. rewrite F, U, X. reflexivity. }
+  assert (B : step s EExternAll = set_xall (fold_left (declare i) mine s)) by reflexivity.
+  rewrite A, B.
+  (* left: .extern all after the definition *)
+  assert (L : step (add_sym (add_isl s i n) en) EExternAll =
+              set_xall (declare i (add_sym (add_isl (fold_left (declare i) mine s) i n) en) n)).
+  { unfold step. replace (topf (add_sym (add_isl s i n) en)) with (topf s) by reflexivity. fold i.
+    simpl isl. rewrite filter_app, map_app. simpl filter. rewrite N.eqb_refl. simpl map. fold mine.
+    rewrite fold_left_app. simpl fold_left.
+    rewrite fold_declare_add_sym, fold_declare_add_isl. reflexivity. }
+  rewrite L.
+  (* right: the definition under the flag *)
+  assert (TS : topf (set_xall (fold_left (declare i) mine s)) =
+               {| f_isfile := true; f_int := i; f_loc := f_loc (topf s); f_xall := true |}).
+  { unfold set_xall, topf. rewrite (proj1 (stack_fold_declare i mine s)).
+    unfold topf in F, i. destruct (stack s) as [|t r]; [discriminate|]. simpl. rewrite F. reflexivity. }
+  unfold step. rewrite TS. simpl f_isfile. simpl f_int. simpl f_xall. simpl negb. cbv iota.
+  assert (SY : syms (set_xall (fold_left (declare i) mine s)) = syms s).
+  { unfold set_xall. destruct (stack (fold_left (declare i) mine s)); simpl; apply syms_fold_declare. }
+  rewrite SY, U.
+  rewrite set_xall_declare, set_xall_add_sym, set_xall_add_isl. reflexivity.
+Qed.
+
+(* a use that is not bound when met is bound at the end, against the final tables only: its value cannot depend
+   on where in the program the definition and the export stand *)
+Lemma deferred_use_final s n tr :
+  lookup_key (mkkey KLocal (f_loc (topf s)) n) (syms s) = None ->
+  lookup_key (mkkey KInternal (f_int (topf s)) n) (syms s) = None ->
+  let s1 := step s (ERef n) in
+  outs s1 = outs s ++ [inr (f_loc (topf s), f_int (topf s), lower n)] /\
+  force (fold_left step tr s1) (inr (f_loc (topf s), f_int (topf s), lower n)) =
+    resolve_final (fold_left step tr s1) (f_loc (topf s)) (f_int (topf s)) (lower n).
+Proof. intros A B. simpl. unfold step. rewrite A, B. simpl. auto. Qed.
+
+(* an exported definition of another instance is what a use without own definition gets *)
+Lemma exported_visible_lemma s loc int ln k v :
+  lookup_key (KLocal, loc, ln) (syms s) = None ->
+  lookup_key (KInternal, int, ln) (syms s) = None ->
+  lookup_ext ln (exts s) = Some k -> lookup_key k (syms s) = Some v ->
+  resolve_final s loc int ln = Some v.
+Proof. intros A B D E. unfold resolve_final. rewrite A, B, D. exact E. Qed.
